@@ -77,6 +77,15 @@ pub const CATALOGUE: &[Operand] = &[
     Operand { ty: "()->(bool, [int])", values: &["[[1], [2, 3]]~"] },
     Operand { ty: "()->(bool, mut int)", values: &["[mut 1, mut 2]~"] },
     Operand { ty: "()->(int, int)", values: &["() -> (int, int) { return (1, 2); }"] },
+    // functions over cells: a call through a union of them must satisfy every member's (invariant) cell type
+    Operand {
+        ty: "(mut (int|float))->()|(mut (int|string))->()",
+        values: &["(m: mut (int|float)) { m = 2.5; }", "(m: mut (int|string)) { m = \"s\"; }"],
+    },
+    Operand { ty: "(mut int)->()|(mut (int|float))->()", values: &["(m: mut int) { m = 2; }", "(m: mut (int|float)) { m = 2.5; }"] },
+    Operand { ty: "mut (int|float)", values: &["mut int|float 1", "mut int|float 2.5"] },
+    Operand { ty: "(mut any)->()", values: &["(m: mut any) { m = \"s\"; }"] },
+    Operand { ty: "([mut (int|float)])->()", values: &["(ms: [mut (int|float)]) { ms[0] = 2.5; }"] },
 ];
 
 /// templates over one operand `X`
